@@ -96,12 +96,14 @@ def exec_scan(ctx, binp, cases):
 
 
 def trace_validate(ctx, runs, shards=6):
-    """Replays the recorded event logs against XmlScan's actions.  Returns the indices of runs the Model rejects."""
+    """Replays the recorded event logs against XmlScan's actions.  Returns (indices of runs the Model rejects, indices
+    of runs that were not replayed because their shard already had three rejections)."""
     per = (len(runs) + shards - 1) // shards
 
     def one(k):
         lo, hi = k * per, min(len(runs), (k + 1) * per)
-        rejected = []
+        rejected, skipped = [], []
+        restarts = 0
         while lo < hi:
             sc = os.path.join(ctx.scratch, "trace-%d-%d" % (k, time.time_ns() % 10**9))
             os.makedirs(sc)
@@ -130,11 +132,15 @@ def trace_validate(ctx, runs, shards=6):
             j = max(i for i, s in enumerate(starts) if s <= stuck)
             rejected.append(lo + j)
             lo = lo + j + 1          # continue behind the rejected run
-        return rejected
+            restarts += 1
+            if restarts >= 3:        # enough to report; the rest of this shard counts as not validated
+                skipped.extend(range(lo, hi))
+                break
+        return rejected, skipped
 
     with cf.ThreadPoolExecutor(max_workers=shards) as ex:
         parts = list(ex.map(one, range(shards)))
-    return [i for p in parts for i in p]
+    return [i for p in parts for i in p[0]], [i for p in parts for i in p[1]]
 
 
 C03_SCAN_CLAUSES = {"stream-order", "stream-complete"}
@@ -195,8 +201,10 @@ def run(ctx):
             # the remaining clauses (later Scans false, Err precedence) belong to C07; here they are only reported
             ctx.divergences += 1
             vlib.log("DIVERGENCE property=C03 scanner history %d fails %s (a C07 clause of XmlScan, not judged by C03)" % (i, why))
-        rejected = f_tr.result()
-        ctx.traces = len(srecs) - len(rejected)
+        rejected, skipped = f_tr.result()
+        ctx.traces = len(srecs) - len(rejected) - len(skipped)
+        if skipped:
+            vlib.log("C03: %d recorded scanner runs were not replayed (their shard already had 3 rejected runs)" % len(skipped))
         for i in rejected[:5]:
             ctx.divergences += 1
             vlib.log("DIVERGENCE property=C03 XmlScan rejects the recorded scanner run %d: ops=%s" % (i, json.dumps(srecs[i]["case"]["ops"])))
